@@ -26,9 +26,9 @@ ALPH4 = [0.0, 0.25, 0.5, 1.0]
 ALPH3 = [0.0, 0.25, 1.0]
 NUMERIC = [0.125, 0.25, 0.5]
 RULES = ["extrema", "auto", "mean", "otsu"]
-AFFINE = [(1.0, 0.0), (2.0, 0.0), (0.5, -1.0), (4.0, 3.0)]
+AFFINE = [(1.0, 0.0), (2.0, 0.0), (0.5, -1.0), (4.0, 3.0), (2.0**-30, 0.0), (2.0**-12, 1024.0)]  # tiny contrast / small contrast on a large offset
 MINR = [0.4, 0.6, 1.0]
-AFFINE_QUICK = [(1.0, 0.0), (0.5, -1.0), (4.0, 3.0)]
+AFFINE_QUICK = [(1.0, 0.0), (0.5, -1.0), (4.0, 3.0), (2.0**-30, 0.0), (2.0**-12, 1024.0)]
 
 
 def cart(shape, mask):
@@ -56,6 +56,9 @@ def blocks(tier, seed):
     for pz in (False, True):
         add({"kind": "cyl", "shape": [2, 3], "R": 2.0, "z": [0.0, 3.0], "periodic_z": pz}, alph3, 1)
     add(cart((8,), (True,)), [0.0, 1.0], 1)
+    # the droplet tracker is a second entry point: every frame must be analysed with ITS OWN threshold
+    for rule in RULES + [0.25]:
+        out.append({"tracker": True, "rule": rule, "tier": tier})
     if tier == "thorough":
         add(cart((6,), (True,)), ALPH4, 2)
         add(cart((6,), (False,)), ALPH4, 2)
@@ -68,7 +71,24 @@ def blocks(tier, seed):
     return out
 
 
+def tracker_images():
+    """24 images of 5 cells over the 4-letter alphabet (fixed catalogue: every image with exactly two distinct neighbours ... kept simple:
+    all images whose cell pattern is a rotation-minimal word of the form x,y,z,0,0 with x >= y)"""
+    out = []
+    for x, y, z in itertools.product(range(4), repeat=3):
+        if x >= y and (x or y or z) and len(out) < 24:
+            out.append([ALPH4[x], ALPH4[y], ALPH4[z], 0.0, 0.0])
+    return out
+
+
 def cases(block):
+    if block.get("tracker"):
+        imgs = tracker_images()
+        maps = AFFINE_QUICK[:3] + AFFINE_QUICK[3:4]
+        for i, j in itertools.product(range(len(imgs)), repeat=2):
+            for m in range(len(maps)):
+                yield {"tracker": True, "rule": block["rule"], "frames": [[imgs[i], [1.0, 0.0]], [imgs[j], list(maps[m])], [imgs[i], list(maps[(m + 1) % len(maps)])]]}
+        return
     g, alph, pre = block["grid"], block["alph"], block["prefix"]
     shape = g["shape"] if "shape" in g else [g["n"]]
     n = int(np.prod(shape))
@@ -110,6 +130,8 @@ def run_case(case, ctx):
     from droplets import locate_droplets
     from droplets.image_analysis import locate_droplets_in_mask, threshold_otsu
 
+    if case.get("tracker"):
+        return run_tracker(case, ctx)
     g, alph = case["grid"], case["alph"]
     shape = tuple(g["shape"]) if "shape" in g else (g["n"],)
     base = np.array([alph[i] for i in case["cells"]], float).reshape(shape)
@@ -180,5 +202,51 @@ def run_case(case, ctx):
                     ctx.count("filter-kept-some")
 
 
+def run_tracker(case, ctx):
+    from pde import ScalarField
+
+    from droplets import DropletTracker
+    from droplets.image_analysis import locate_droplets_in_mask
+
+    g = cart((5,), (True,))
+    grid = geom.make_grid(g)
+    rule = case["rule"]
+    tags = {"grid": "cart", "rule": rule if isinstance(rule, str) else "numeric", "entry": "tracker"}
+    frames = [a * np.array(img, float) + b for img, (a, b) in case["frames"]]
+    if isinstance(rule, float):
+        # a numeric threshold is not mapped by the tracker: keep the frames on the standard scale
+        frames = [np.array(img, float) for img, _ in case["frames"]]
+    try:
+        tr = DropletTracker(1, threshold=rule, minimal_radius=0.0)
+        tr.initialize(ScalarField(grid, frames[0]))
+        for t, data in enumerate(frames):
+            tr.handle(ScalarField(grid, data), float(t))
+            ctx.op()
+    except Exception as e:  # noqa
+        ctx.check("C18.same-as-mask", False, {"exc": repr(e)[:300]}, tags)
+        return
+    for t, data in enumerate(frames):
+        if np.ptp(data) == 0 and rule == "otsu":
+            continue
+        if rule in ("extrema", "auto"):
+            Ts = [(data.min() + data.max()) / 2]
+        elif rule == "mean":
+            Ts = [float(np.mean(data))]
+        elif rule == "otsu":
+            Ts = otsu_ref(data)
+        else:
+            Ts = [rule]
+        if any(np.any(np.abs(data - T) <= 1e-9 * max(float(np.ptp(data)), 1e-300)) for T in Ts):
+            ctx.skip("knife-edge:cell-on-threshold")
+            continue
+        got = key(tr.data[t])
+        uniq = {}
+        for T in Ts:  # tied thresholds that give the same binary image need one reference run only
+            uniq.setdefault((data > T).tobytes(), T)
+        refs = [[k for k in key(locate_droplets_in_mask(ScalarField(grid, data > T, dtype=bool))) if k[2] > 0.0] for T in uniq.values()]
+        ctx.check("C18.same-as-mask", any(got == r for r in refs), {"frame": t, "rule": rule, "got": got, "want": refs[0], "data": data}, tags)
+        ctx.count("tracker-frames")
+
+
 def expected_positive(tier):
-    return ["C18.same-as-mask", "C18.affine", "C18.filter", "C18.otsu-definition", "non-constant-image", "filter-removed-some", "filter-kept-some"]
+    return ["C18.same-as-mask", "C18.affine", "C18.filter", "C18.otsu-definition", "non-constant-image", "filter-removed-some", "filter-kept-some", "tracker-frames"]
